@@ -510,7 +510,8 @@ fn write_replay(
         ));
     }
     let h = trace_hash(&r1);
-    let dir = format!("{}/replays", verif_root());
+    // VERIF_OUT_DIR (used by seedreport.py for runs against a patched /repo) redirects evidence and replays
+    let dir = format!("{}/replays", std::env::var("VERIF_OUT_DIR").unwrap_or_else(|_| verif_root()));
     std::fs::create_dir_all(&dir).map_err(|e| e.to_string())?;
     let path = format!("{dir}/{}-{}-{:08x}.json", prop.id, seed, (h as u32));
     let doc = json!({
@@ -729,7 +730,7 @@ pub fn cmd_run(prop: &Property, tier: &str, selftest: bool) -> i32 {
         "wall_s": (wall * 1000.0).round() / 1000.0,
         "violations": if exit == 1 { unknown.len() } else { 0 },
     });
-    let evdir = format!("{}/evidence", verif_root());
+    let evdir = format!("{}/evidence", std::env::var("VERIF_OUT_DIR").unwrap_or_else(|_| verif_root()));
     let _ = std::fs::create_dir_all(&evdir);
     let evpath = format!("{evdir}/{}.json", prop.id);
     if let Err(e) = std::fs::write(&evpath, serde_json::to_string_pretty(&ev).unwrap()) {
